@@ -100,6 +100,79 @@ def run_property(pid, facts, tier, ctx):
     return rep, mod
 
 
+def thorough_extras(pid, mod, rep, repo, ctx):
+    """(a) re-run the rules on the other feature configurations (no cfg variant escapes the all-features facts);
+    (b) self-test of the checker on the seeded corpus of this property and on the behaviour-preserving variants.
+    (a) adds violations; (b) is recorded in the evidence only and never changes the verdict on /repo."""
+    import glob
+    import re
+    import shutil
+    import tempfile
+    import analysis.terms as T
+    info = {"configs": {}, "selftest": {}}
+    main_keys = {o["key"] for o in rep.violations()}
+    for cfg in ("default", "embedded", "async"):
+        T._TRACERS.clear()
+        f2 = Facts(extract(repo, cfg))
+        r2 = Report(pid)
+        r2.partial = True
+        c2 = dict(ctx)
+        c2["config"] = cfg
+        mod.run(f2, r2, "quick", c2)
+        extra = [o for o in r2.violations() if o["key"] not in main_keys]
+        info["configs"][cfg] = {"bodies": len(f2.bodies), "obligations": len(r2.obligations), "extra_violations": len(extra)}
+        for o in extra:
+            rep.ob(o["rule"] + "@" + cfg, o["fn"], o["key"].split("|")[2], False,
+                   "only in the `%s` feature configuration: %s" % (cfg, o["detail"]), o["loc"])
+            main_keys.add(o["key"])
+    T._TRACERS.clear()
+    # (b) seeded corpus + variants, on scratch copies of `repo`
+    base = {o["key"] for o in rep.violations()}
+    os.environ["VFS_FACTS_TARGET"] = os.path.join(V, ".cache", "target-scratch")
+
+    def run_on_patch(patch):
+        w = tempfile.mkdtemp(prefix="selftest.")
+        try:
+            r = os.path.join(w, "r")
+            subprocess.run(["rsync", "-a", "--exclude", "target", "--exclude", ".git", repo.rstrip("/") + "/", r + "/"], check=True)
+            p = subprocess.run(["git", "apply", patch], cwd=r, capture_output=True, text=True)
+            if p.returncode != 0:
+                return None
+            try:
+                fp = extract(r, "all")
+            except Exception:
+                return "does-not-compile"
+            f3 = Facts(fp)
+            r3 = Report(pid)
+            c3 = dict(ctx)
+            c3["repo"] = r
+            mod.run(f3, r3, "quick", c3)
+            T._TRACERS.clear()
+            try:
+                os.remove(fp)
+            except OSError:
+                pass
+            return sorted(o["key"] for o in r3.violations() if o["key"] not in base)
+        finally:
+            shutil.rmtree(w, ignore_errors=True)
+
+    seeds = sorted(glob.glob(os.path.join(V, "seeded", pid + "-m*")))
+    st = {"seeded_changes": [], "variants": []}
+    for sd in seeds:
+        res = run_on_patch(os.path.join(sd, "patch.diff"))
+        st["seeded_changes"].append({"seed": os.path.basename(sd), "applies": res is not None,
+                                     "reported": bool(res) if res not in (None, "does-not-compile") else None,
+                                     "new_violation_keys": res[:4] if isinstance(res, list) else res})
+    for vf in sorted(glob.glob(os.path.join(V, "variants", "v*.diff"))):
+        res = run_on_patch(vf)
+        st["variants"].append({"variant": os.path.basename(vf), "applies": res is not None,
+                               "silent": (res == []) if isinstance(res, list) else None,
+                               "new_violation_keys": res[:4] if isinstance(res, list) else res})
+    info["selftest"] = st
+    os.environ.pop("VFS_FACTS_TARGET", None)
+    return info
+
+
 def main():
     ap = argparse.ArgumentParser()
     ap.add_argument("prop")
@@ -126,6 +199,15 @@ def main():
         traceback.print_exc()
         print("BROKEN property=%s analysis failed (exit 2)" % pid)
         sys.exit(2)
+
+    thorough_info = {}
+    if tier == "thorough":
+        try:
+            thorough_info = thorough_extras(pid, mod, rep, a.repo, ctx)
+        except Exception:
+            traceback.print_exc()
+            print("BROKEN property=%s thorough extras failed (exit 2)" % pid)
+            sys.exit(2)
 
     known = [k for k in load_known() if k.get("property") == pid]
     known_keys = {k["key"]: k for k in known if k.get("status") == "known"}
@@ -185,6 +267,7 @@ def main():
                 "fact_file_tree_hash": os.path.basename(fpath),
                 "samples": samples,
                 "notes": rep.notes,
+                "thorough": thorough_info,
                 "checker_cmd": "python3 /verif/check.py %s --tier %s" % (pid, tier),
                 "exhaustive": True,
                 "evaluations": max(n, 1),
